@@ -24,11 +24,11 @@ var InjectedFault = errors.New("tape: injected read fault")
 
 // Fault describes one injected failure of the random source.
 type Fault struct {
-	AtRead   int  // index (0-based) of the Read call that fails
-	Deliver  int  // bytes delivered by the failing call (clamped below request)
-	Kind     int  // 0 custom error, 1 io.EOF, 2 io.ErrUnexpectedEOF
-	Persist  bool // true: every later call fails too (delivering 0 bytes)
-	ShortOK  bool // true: the faulting call returns (Deliver, nil) - a short successful read
+	AtRead  int  // index (0-based) of the Read call that fails
+	Deliver int  // bytes delivered by the failing call (clamped below request)
+	Kind    int  // 0 custom error, 1 io.EOF, 2 io.ErrUnexpectedEOF
+	Persist bool // true: every later call fails too (delivering 0 bytes)
+	ShortOK bool // true: the faulting call returns (Deliver, nil) - a short successful read
 }
 
 func (f *Fault) err() error {
